@@ -266,3 +266,24 @@ func bindByType(n *Normer, fn *ssa.Function, roles ...roleSpec) bool {
 	}
 	return all
 }
+
+// flatNorms: normal forms of the arguments with struct-valued arguments replaced by the normal
+// forms of their fields (resolved through literals, parameters and the calling context).
+func flatNorms(n *Normer, args []ssa.Value) []string {
+	var out []string
+	for _, a := range args {
+		st, isStruct := a.Type().Underlying().(*types.Struct)
+		if !isStruct {
+			out = append(out, n.Norm(a).String())
+			continue
+		}
+		for i := 0; i < st.NumFields(); i++ {
+			if p, ok := n.fieldOf(a, i, 0); ok {
+				out = append(out, p.String())
+			} else {
+				out = append(out, n.Norm(a).asAtom()+"."+fname(st.Field(i)))
+			}
+		}
+	}
+	return out
+}
